@@ -8,6 +8,7 @@ import (
 	"go/ast"
 	"go/token"
 	"go/types"
+	"regexp"
 	"sort"
 	"strings"
 )
@@ -235,6 +236,20 @@ func (w *World) decoderRows(k *Kind, dfi *FuncInfo) (rows [][5]string, needs []s
 }
 
 func runC04(w *World, r *Report) {
+	r.Rule("stepspec", "a list decoder whose advance the wire format fixes (hello elements: next multiple of 8) advances by exactly that", 1)
+	stepSpecRule(w, r, "stepspec")
+	r.Rule("shiftwidth", "no shift by a constant count that is as large as its operand's type (the value would always be 0: bits lost before widening)", 1)
+	shiftWidthRule(w, r, "shiftwidth", func(fi *FuncInfo) bool {
+		return fi.Pkg.Types.Name() == "openflow13" || fi.Pkg.Types.Name() == "common" || fi.Pkg.Types.Name() == "protocol"
+	})
+	r.Rule("shadow", "no := in an inner scope re-declares a same-typed variable of the function that is read afterwards (or a named result): the value computed there would be lost", 1)
+	shadowRule(w, r, "shadow", func(fi *FuncInfo) bool {
+		return fi.Pkg.Types.Name() == "openflow13" || fi.Pkg.Types.Name() == "common" || fi.Pkg.Types.Name() == "protocol"
+	})
+	r.Rule("typednil-var", "a pointer result that can be a bare nil is not assigned to an interface-typed variable (a typed nil passes == nil tests the wrong way)", 1)
+	typedNilVarRule(w, r, "typednil-var", func(fi *FuncInfo) bool {
+		return fi.Pkg.Types.Name() == "openflow13" || fi.Pkg.Types.Name() == "common" || fi.Pkg.Types.Name() == "protocol"
+	})
 	r.Rule("tailguard", "a decoder that keeps the rest of its input from some offset admits every input that has a byte there", 1)
 	tailGuardRule(w, r, "tailguard", func(k *Kind) bool { return true })
 	r.Rule("observers", "methods that formatting calls implicitly (String, Error, …) leave the value unchanged", 1)
@@ -1365,6 +1380,53 @@ func carriedStepRule(w *World, r *Report, rule string, dfi *FuncInfo) {
 			} else {
 				r.OK(rule, dfi.Key, inst, w.Pos(l.Pos), "every advance is computed from the current element, constants or values fixed before the loop", true)
 			}
+		}
+	}
+}
+
+// stepSpecRule: where the wire format fixes how far a list decoder advances per element independently of
+// the element's own size function, the advance is compared with that specification. (Most list decoders
+// advance by the size the decoded element reports; those are the extent/liststep rules.)
+var specSteps = map[string]struct{ Step, Cite string }{
+	"common.Hello.UnmarshalBinary": {"round8(val(new#.Length))", "OpenFlow 1.3.5 §7.5.1: hello elements are padded to 64-bit alignment, the next element starts at the next multiple of 8 after length bytes"},
+}
+
+var objNumRE = regexp.MustCompile(`new#\d+`)
+
+func stepSpecRule(w *World, r *Report, rule string) {
+	var keys []string
+	for k := range specSteps {
+		keys = append(keys, k)
+	}
+	sort.Strings(keys)
+	for _, key := range keys {
+		sp := specSteps[key]
+		fi := w.Funcs[key]
+		if fi == nil {
+			r.Fail(VViolation, rule, key, "", "-", "the list decoder no longer exists (anchor of the rule cannot be resolved)")
+			continue
+		}
+		fs := w.Interpret(fi, "decode")
+		n := 0
+		for _, l := range fs.Loops {
+			for _, c := range l.Cursors {
+				for _, p := range c.Paths {
+					if p == nil || p.IsZero() {
+						continue
+					}
+					n++
+					got := objNumRE.ReplaceAllString(p.String(), "new#")
+					inst := fmt.Sprintf("%s#%d", c.Var, n)
+					if got == sp.Step {
+						r.OK(rule, key, inst, w.Pos(l.Pos), "the cursor advances by "+got+" — "+sp.Cite, true)
+					} else {
+						r.Fail(VViolation, rule, key, inst, w.Pos(l.Pos), "the cursor advances by "+got+", specified "+sp.Step+" — "+sp.Cite)
+					}
+				}
+			}
+		}
+		if n == 0 {
+			r.Fail(VUndecided, rule, key, "", w.Pos(fi.Decl.Pos()), "no list cursor with a non-zero advance found in the decoder")
 		}
 	}
 }
